@@ -21,7 +21,10 @@ Next == /\ l <= TraceLen
               /\ Check(e.links, l, "parent/child links not symmetric after " \o e.op)
               /\ Check(e.cc = "", l, "CheckConsistency fails after " \o e.op)
               /\ Check(WellShaped(after) /\ Consistent(after), l, "statuses incompatible with structure after " \o e.op)
-              /\ Check(e.op # "dedupe" \/ OnePerUrl(after), l, "dedupe left two nodes with one URL")
+              \* "dedupe-any" / "cac-any": the operation applied to an arbitrary consistent tree, reachable through the stages or
+              \* not: one node per URL and well-formedness are demanded there too; "never discards a URL" and "complete iff
+              \* nothing pending" are statements about trees the stages can build (every pass de-duplicates before it fetches)
+              /\ Check(e.op \notin {"dedupe", "dedupe-any"} \/ OnePerUrl(after), l, "dedupe left two nodes with one URL")
               /\ Check(e.op # "dedupe" \/ NoUrlLost(before, after), l, "dedupe discarded a URL altogether")
               /\ Check(e.op # "cac" \/ CompletionExact(after, e.r), l, "completion verdict differs from pending work")
               /\ Check(e.op # "conc" \/ (e.panics = 0 /\ {after[i].u : i \in 2..Len(after)} = {e.expect[i] : i \in 1..Len(e.expect)} /\ Len(after) = Len(e.expect) + 1), l,
